@@ -480,6 +480,8 @@ def custom_converter_roundtrips(out):
 
 
 def run(ctx, out):
+    import families as _fameq
+    out.evaluations += _fameq.equal_but_distinct_family(out, PROP)
     import families as _famni
     out.evaluations += _famni.noninit_roundtrip_family(out, PROP)
     out.rule = ('types x values accepted by them (x = from_data(v, T)); checks: into_data(x, T) is interchange data only, '
